@@ -25,7 +25,7 @@ pub static DEF: PropDef = PropDef {
     id: "C04",
     level: "exploration",
     engine: "query",
-    rule: "one run = a generated dataset (20..120 rows, 3 metrics, nullable host label (in a quarter of the Int64-timestamp runs some chunks lack the label column altogether), exact-in-f64 values, timestamps placed minutes / hours / days before and slightly after the virtual now, on hour-bucket edges +-1 ns, in one run of six also before the epoch) ingested through the real Ingester with a drawn flush threshold (so the same rows land in 1..k chunks in different orders), on either catalog backend, with either timestamp column type; 6..12 generated SELECTs whose WHERE confines the timestamp to a finite window by construction (comparisons in both operand orders against integer / TIMESTAMP-literal / now()-relative bounds, BETWEEN, =, AND/OR/NOT nests, unions of windows, label predicates, projections, count/sum/min/max/avg, GROUP BY), each run cold and warm, before and after a real compaction cycle, a third of the runs over a flaky store during the query phase (failed requests, response bodies breaking part-way: a query may fail then, a returned answer must still be exact), with a tiny or large L1 cache and adaptive indexing on or off; the answer must equal the same SQL on a MemTable of all ingested rows (multiset of canonically rendered rows); distinct = distinct (dataset, query text) hash; non-trivial = the reference answer is non-empty or the window straddles data",
+    rule: "one run = a generated dataset (20..120 rows, 3 metrics, nullable host label (in a quarter of the Int64-timestamp runs some chunks lack the label column altogether), exact-in-f64 values, timestamps placed minutes / hours / days before and slightly after the virtual now, on hour-bucket edges +-1 ns, in one run of six also before the epoch) ingested through the real Ingester with a drawn flush threshold (so the same rows land in 1..k chunks in different orders), on either catalog backend, with either timestamp column type; 6..12 generated SELECTs whose WHERE confines the timestamp to a finite window by construction (comparisons in both operand orders against integer / TIMESTAMP-literal / now()-relative bounds, BETWEEN, =, AND/OR/NOT nests, unions of windows, label predicates, projections, count/sum/min/max/avg, GROUP BY, DISTINCT, HAVING, ORDER BY timestamp [DESC] [LIMIT n [OFFSET m]] and 'latest rows' ORDER BY timestamp DESC, id LIMIT n - compared as sequences), each run cold and warm, before and after a real compaction cycle, a third of the runs over a flaky store during the query phase (failed requests, response bodies breaking part-way: a query may fail then, a returned answer must still be exact), with a tiny or large L1 cache and adaptive indexing on or off; in 40 % of the runs time then passes (40 min / 2 h / 25 h), new rows arrive in a chunk of their own and the same statement texts are sent again (the meaning of now()-relative bounds moves with the clock); the answer must equal the same SQL on a MemTable of all ingested rows (multiset of canonically rendered rows); distinct = distinct (dataset, query text) hash; non-trivial = the reference answer is non-empty or the window straddles data",
     quick_runs: 600,
     thorough_runs: 10_000,
     run_cap_ms: 120_000,
@@ -49,6 +49,7 @@ fn scen(_spec: RunSpec) -> ScenFut {
         sim::set_cfg(|c| {
             c.adv_pct = 0;
             c.max_grants = 200_000;
+            c.max_virtual_ns = 48 * 3600 * 1_000_000_000;
         });
         // the virtual "now" is well past the epoch so that "days ago" is representable
         let ts_type_int = sim::w_bool(50);
@@ -311,6 +312,16 @@ fn scen(_spec: RunSpec) -> ScenFut {
                     match got {
                         Ok(g) => {
                             let got_m = result_multiset(&g);
+                            // an ORDER BY of the generator determines the sequence of rows, not just their multiset
+                            let order_differs = sql.contains(" ORDER BY ") && got_m == want_m && result_sequence(&g) != result_sequence(&want);
+                            if order_differs {
+                                sim::violation(
+                                    "C04/answer-differs/row-order",
+                                    format!("[{temp}, round {round}] {sql} :: the right rows in another order: expected {:?}, got {:?}", result_sequence(&want), result_sequence(&g)),
+                                );
+                                sim::set_completed();
+                                return;
+                            }
                             if got_m != want_m {
                                 // diagnosis for the trace: what the node extracted and what the catalog holds
                                 let tr = qn.engine.extract_time_range(sql).await;
@@ -348,6 +359,74 @@ fn scen(_spec: RunSpec) -> ScenFut {
                 }
                 for f in features {
                     sim::probe(f);
+                }
+            }
+        }
+        // History: time passes, new rows arrive in a chunk of their own, and the same statement texts are sent again
+        // (a dashboard refreshing). The meaning of a now()-relative statement moves with the clock; new rows are dated
+        // so that the moved windows cover them the way the old windows covered the old rows.
+        if sim::w_bool(40) {
+            let shift = [40 * 60 * SEC, 2 * HOUR, 25 * HOUR][sim::w(3) as usize];
+            let settle = 61 * SEC;
+            tokio::time::sleep(Duration::from_nanos(shift as u64)).await;
+            let n = sim::w_range(2, 6);
+            let recent: Vec<i64> = all_rows.iter().map(|r| r.ts).filter(|t| *t >= now - HOUR).collect();
+            let rows: Vec<Row> = (0..n)
+                .map(|_| {
+                    let p = if recent.is_empty() || sim::w(4) == 3 { points[sim::w(points.len() as u32) as usize] } else { recent[sim::w(recent.len() as u32) as usize] };
+                    let mut r = gen.row(p + shift + settle, false);
+                    r.vi = Some(r.id % 11);
+                    r.vf = Some((r.id % 9) as f64 * 0.25);
+                    r
+                })
+                .collect();
+            all_rows.extend(rows.clone());
+            if let Err(e) = ing.write(batch(variant, &rows)).await {
+                sim::violation("C04/ingest-failed", e.to_string());
+                return;
+            }
+            ing.run_flush_timer().await;
+            // the query node's catalog view may be up to 60 s stale by design
+            tokio::time::sleep(Duration::from_nanos(settle as u64)).await;
+            let all2 = batch(variant, &all_rows);
+            sim::probe("statements-sent-again-after-time-passed-and-rows-arrived");
+            for (sql, features) in &queries {
+                let t0 = sim::wall_ns();
+                let want = match reference(sql, &all2).await {
+                    Ok(w) => w,
+                    Err(_) => continue,
+                };
+                let f0 = faults_so_far();
+                let got = qn.query(sql).await;
+                if sim::wall_ns() != t0 && sql.contains("now()") {
+                    continue;
+                }
+                match got {
+                    Err(_) if faults_so_far() > f0 => {
+                        sim::probe("query-failed-under-injected-fault");
+                    }
+                    Err(e) => {
+                        sim::violation(format!("C04/query-error/{}", classify(sql, features)), format!("[sent again {} s later, after new rows arrived] {sql} :: {e}", (shift + settle) / SEC));
+                        sim::set_completed();
+                        return;
+                    }
+                    Ok(g) => {
+                        let (want_m, got_m) = (result_multiset(&want), result_multiset(&g));
+                        if got_m != want_m || (sql.contains(" ORDER BY ") && result_sequence(&g) != result_sequence(&want)) {
+                            let tr = qn.engine.extract_time_range(sql).await;
+                            let chunks = meta.list_chunks().await.unwrap_or_default();
+                            sim::log(format!("DIAG extracted time range: {:?}; catalog chunks: {:?}", tr.map(|t| (t.start, t.end)), chunks.iter().map(|c| (c.min_timestamp, c.max_timestamp, c.row_count)).collect::<Vec<_>>()));
+                            sim::violation(
+                                "C04/answer-differs/sent-again-after-new-rows",
+                                format!("[sent again {} s later, after new rows arrived] {sql} :: {} (answered correctly the first time)", (shift + settle) / SEC, describe_diff(&want_m, &got_m)),
+                            );
+                            sim::set_completed();
+                            return;
+                        }
+                        if sql.contains("now()") && want_m.values().sum::<u32>() > 0 {
+                            sim::probe("now-relative-statement-sent-again-nonempty");
+                        }
+                    }
                 }
             }
         }
